@@ -50,6 +50,9 @@ fn main() {
             all.extend(cells::from_seeds::<Q8E0>(t));
             all.extend(cells::from_seeds::<Q16E1>(t));
             all.extend(cells::from_seeds::<Q32E2>(t));
+            all.extend(cells::q8_state_space::<Q8E0>(t));
+            all.extend(cells::window_states::<Q16E1>(t));
+            all.extend(cells::window_states::<Q32E2>(t));
             all.extend(cells::state_ops_after::<Q8E0>(t));
             all.extend(cells::state_ops_after::<Q16E1>(t));
             all.extend(cells::state_ops_after::<Q32E2>(t));
